@@ -176,6 +176,7 @@ def speriodogram_task(prop_hint, datatype, nfft_mode="int", scale=False):
         dom = tc.smt()
         I = tc.interp(stubs=window_stub(dom))
         hints = {"datatype": datatype, "nfft_mode": nfft_mode, "scale": scale}
+        tc.native = ("speriodogram", hints)
 
         def thunk(I):
             N = dom.input_int("N")
@@ -222,6 +223,7 @@ def speriodogram2d_task(datatype, ncols):
         dom = tc.smt()
         I = tc.interp(stubs=window_stub(dom))
         hints = {"datatype": datatype, "ncols": ncols}
+        tc.native = ("speriodogram2d", hints)
 
         def thunk(I):
             N = dom.input_int("N")
@@ -266,6 +268,7 @@ def correlogram_task(datatype, method, cross=False):
         st_.update(corr_stubs(dom))
         I = tc.interp(stubs=st_)
         hints = {"datatype": datatype, "method": method, "cross": cross}
+        tc.native = ("correlogram", hints)
 
         def thunk(I):
             N = dom.input_int("N")
@@ -310,6 +313,7 @@ def minvar_task(datatype):
         dom = tc.smt()
         I = tc.interp(stubs=burg_stub(dom))
         hints = {"datatype": datatype}
+        tc.native = ("minvar", hints)
 
         def thunk(I):
             N = dom.input_int("N")
@@ -352,6 +356,7 @@ def eigen_task(datatype, method, P_, NSIG, nfft_parity=None):
         dom = tc.smt()
         I = tc.interp()
         hints = {"datatype": datatype, "method": method, "P": P_, "NSIG": NSIG}
+        tc.native = ("eigen", hints)
 
         def thunk(I):
             N = dom.input_int("N")
@@ -420,6 +425,7 @@ def grid_task(fname, datatype, extra=None):
         stubs.update(burg_stub(dom))
         I = tc.interp(stubs=stubs)
         hints = {"fn": fname, "datatype": datatype}
+        tc.native = ("grid", hints)
         hints.update(extra or {})
 
         def thunk(I):
